@@ -406,7 +406,8 @@ PROPERTIES = {
         level_text="The memory model itself is the oracle: every write the code issues must start at a registered function entry or at a trampoline it mapped and must fit the slot (16 bytes entries / 24 bytes trampolines), else the obligation fails; bytes behind the patch and a second function packed 16 bytes away stay identical during and after; mprotect may not drop r-x from text, and a function's page that was writable before the installation (code arena; initial protection symbolic in x64_core_redirect) is still writable after the injector is gone. Decided for every address placement (single install, all variants built so far) and for API histories K=2, L<=2/3.",
         level_note="Relies on all code-memory writes going through ptr::copy_nonoverlapping: any other dereference of a simulated (integer) address is reported by Kani's pointer checks as a failed check and makes the run inconclusive, so the assumption is checked, not trusted. Mappings the model does not know (shared libraries) are outside.",
         quick=["x64_core_redirect", "x64_core_boolean", "x64_api_hist_l1", "x64_alloc_any_4k", "arm_core_a32", "arm_core_t32_misaligned"],
-        thorough=["x64_core_redirect", "x64_core_boolean", "x64_api_hist_l1", "x64_api_hist_l2", "x64_api_hist_l3", "x64_alloc_any_4k", "x64_alloc_layout_16m", "a64_core_redirect", "a64_alloc_any_4k",
+        premises=["premise_only_static_is_lock"],
+        thorough=["x64_core_redirect", "x64_core_boolean", "x64_api_hist_l1", "x64_api_hist_l2", "x64_api_hist_l3", "x64_api_hist_l1x2", "x64_alloc_any_4k", "x64_alloc_layout_16m", "a64_core_redirect", "a64_alloc_any_4k",
                   "arm_core_a32", "arm_core_t32_aligned", "arm_core_t32_misaligned", "win_core_redirect"],
         outside=["executable mappings the model does not register (shared libraries)", "histories beyond L=3"],
     ),
@@ -416,7 +417,7 @@ PROPERTIES = {
         level_note="The 10^5-cycle figure is covered by the one-cycle induction step, not executed. Kernel-side limits (vm.max_map_count) are outside. The refused-install and exhaustion paths are C05/C11.",
         quick=["x64_core_redirect", "x64_core_boolean", "x64_api_hist_l1", "x64_alloc_any_4k", "arm_api_same2", "a64_core_boolean", "panic_at_p2"],
         thorough=["x64_core_redirect", "x64_core_boolean", "x64_api_hist_l2", "x64_api_hist_l3", "x64_api_hist_l1x2", "x64_alloc_any_4k", "x64_alloc_layout_16m", "a64_alloc_any_4k", "arm_core_a32", "arm_api_same2", "win_core_redirect"],
-        premises=["premise_only_static_is_lock"],
+        premises=["premise_only_static_is_lock", "premise_refake_no_leak_native"],
         outside=["cycle counts are covered by induction over one cycle, not unrolled beyond 2"],
     ),
     "C13": dict(
@@ -723,6 +724,21 @@ def premise_async_refake_native(work, tier):
         return {"name": "async_refake_native", "ok": None, "detail": "no summary: " + p.stdout[-300:]}
     return {"name": "async_refake_native", "ok": not fails, "evaluations": 1, "distinct": 1, "violations": fails,
             "detail": p.stdout.strip().splitlines()[-1], "samples": ["fake quota; fake limit; await; re-fake quota; await x3; drop; await x2"]}
+
+
+def premise_refake_no_leak_native(work, tier):
+    """C12 native premise (NOT a solver step): the same function faked 6 times through one injector, drop, the set of
+    rwx anonymous mappings is what it was at start; a second lifetime with 3 more; the function answers as the
+    original afterwards.  Exists because a change that rearranges the guard vector at installation time (remove /
+    retain / supersede) pushes the re-fake harnesses over the solver's memory budget (seeded/C12d): the solver side is
+    then inconclusive and only this native run speaks."""
+    scn = "func 0 - 1024 11\nwatch 0\nnew\nrefake 0 6\ndrop\nmaps\nbytes 0\ncall 0 11\nnew\nrefake 0 3\nbool 0 1\ndrop\nmaps\ncall 0 11\n"
+    r = _native(work, scn, "refake_leak")
+    if r.get("reproduced") is None:
+        return {"name": "refake_no_leak_native", "ok": None, "detail": r.get("detail", "")}
+    bad = [r.get("detail", "")] if r.get("reproduced") else []
+    return {"name": "refake_no_leak_native", "ok": not bad, "evaluations": 1, "distinct": 1, "violations": bad,
+            "detail": r.get("detail", "")[:600], "samples": ["6 fakes of one function, drop, maps; 3 more + forced boolean, drop, maps"]}
 
 
 def premise_flush_native(work, tier):
